@@ -583,6 +583,7 @@ func (h *Hist) randomEvent() string {
 // runHistory plays one random history of `scans` scans. Returns false if it had to be abandoned.
 func (h *Hist) runHistory(scans int) (bool, string) {
 	h.genConfigs()
+	h.realCtor = h.r.chance(4)
 	h.twinT = h.r.intn(len(h.cfgs))
 	if h.r.chance(50) {
 		h.twinT = len(h.cfgs) - 1
